@@ -22,6 +22,9 @@ class Module(object):
         if os.environ.get("VERIF_NOCANON") != "1":
             from .canonical import canonicalise
             self.tree = canonicalise(self.tree)
+            if os.environ.get("VERIF_NOINLINE") != "1":
+                from .prenorm import inline_private_helpers_in_module, overridden_private_names
+                self.inlined_methods = inline_private_helpers_in_module(self.tree, never=overridden_private_names(ROOT))
             if os.environ.get("VERIF_NOALPHA") != "1":
                 from .alpha import align_module
                 self.alpha_renamed = align_module(self.tree, rel)
